@@ -2,7 +2,7 @@
 from xsvlib.facts import fmt, strip, place_path, walk
 from xsvlib import q
 from . import common as C
-from .store_shared import read_bodies, denotes_field, is_oneshot_await, capture_type_contains, follow_flag_edges
+from .store_shared import read_bodies, denotes_field, is_oneshot_await, capture_type_contains, follow_flag_edges, is_follow_flag
 from . import C09 as c09
 
 EXPLANATION = ("Ordering analysis of Store::read and Store::append: the broadcast subscription is taken in the read body itself and cannot "
@@ -48,6 +48,13 @@ def r1(run):
     if hs is None or ls is None:
         run.missing("%s|launches" % C.READ, "history / live launch sites not found in the read body", main.sp)
         return
+    fe = follow_flag_edges(run, main)
+    then_on_flag = False
+    for c in main.calls():
+        if c.bb == sub_bb and c.fn in q.IMMEDIATE_COMBINATORS and c.args:
+            then_on_flag = is_follow_flag(run, main, c.arg(0))
+    run.ob("%s|subscribe-iff-follow" % C.READ, sub_body is main and ((bool(fe) and q.dominated(main, sub_bb, via_edges=fe)) or then_on_flag), sub.sp,
+           "the subscription is taken exactly on the `follow is On / WithHeartbeat` edge (a following read without a subscription never goes live)", reason="follow-without-subscription")
     run.ob("%s|subscribe-not-after-scan-launch" % C.READ, sub_body is main and not q.reaches(main, hs.bb, sub_bb) and hs.bb != sub_bb, sub.sp,
            "the subscription cannot be reached from the launch of the historical scan (subscribe happens-before scan)", reason="subscribe-after-scan-may-start")
     # whenever the read follows, the subscription precedes the scan launch: every path to the launch that follows passes subscribe or the not-following edge
@@ -182,6 +189,24 @@ def r4(run):
         run.ob("%s|history|threshold-guard" % C.READ, bool(follow_edges) and bool(nolimit_edges) and q.dominated(h, t.bb, via_edges=follow_edges)
                and q.dominated(h, t.bb, via_edges=nolimit_edges), t.sp, "the threshold is sent only when following without a limit", reason="threshold-guard")
         run.ob("%s|history|threshold-before-done" % C.READ, q.reaches(h, t.bb, d.bb), t.sp, "the done signal follows the threshold")
+        ok_e, err_e = q.call_result_edges(h, t, ok=True), q.call_result_edges(h, t, ok=False)
+        rets = set(h.return_blocks())
+        silent = h.reachable_blocks([x for (_, x, _) in ok_e], removed_blocks=[d.bb]) & rets if ok_e else rets
+        run.ob("%s|history|threshold-delivered-then-done" % C.READ, bool(ok_e) and not silent and not any(d.bb in h.reachable_blocks([x]) for (_, x, _) in err_e), t.sp,
+               "after the threshold was delivered the hand-off (done) is always signalled; only a failed delivery ends the thread without it", reason="hand-off-skipped")
+    # the scan finished normally => done is signalled on every path that has no failed delivery
+    all_err = []
+    for c in sends:
+        all_err += q.call_result_edges(h, c, ok=False)
+    for n in nxt:
+        for bb, si in h.switches():
+            sc = strip(si["cond"])
+            if si["kind"] == "variant" and sc[0] == "call" and q.same_call(sc[1], n):
+                none_e = [(bb, t2, lab) for (t2, lab, m) in si["edges"] if (m if isinstance(m, tuple) else (m,)) == ("None",)]
+                if none_e:
+                    lost = h.reachable_blocks([t2 for (_, t2, _) in none_e], removed_blocks=[d.bb], removed_edges=all_err) & set(h.return_blocks())
+                    run.ob("%s|history|scan-end-reaches-done" % C.READ, not lost, h.blocks[bb]["term"]["sp"],
+                           "when the scan runs to its end the thread always signals done (unless a delivery failed)", reason="hand-off-skipped")
     # the hand-off carries the last scanned id and the delivered count
     tup = strip(d.arg(1))
     okp = tup[0] == "agg" and tup[1].get("agg") == "tuple" and len(tup[2]) == 2
@@ -235,11 +260,17 @@ def r6(run):
     c11.r7(run)
 
 
+def r7(run):
+    from . import C11 as c11
+    c11.r8(run)
+
+
 RULES = [
     ("R-C03-1", "the broadcast subscription is taken in the read body, cannot follow the scan launch, and is the one the live task polls", r1),
     ("R-C03-2", "live dedupe: deliver exactly when frame.id > last scanned id; the comparison dominates every delivery", r2),
     ("R-C03-3", "append: store, then broadcast (ephemeral: broadcast only)", r3),
     ("R-C03-4", "history: scan, then threshold (following, no limit), then done - nothing after done", r4),
     ("R-C03-5", "the live task starts receiving only after the hand-off (or in tail mode)", r5),
+    ("R-C03-7", "a frame the live task filters out (other context, already scanned) is skipped, never terminal (shared with R-C11-8)", r7),
     ("R-C03-6", "no silent gap: a receive error of the broadcast subscription ends the stream (shared with R-C11-7)", r6),
 ]
